@@ -72,6 +72,14 @@ def collect_sites(prog):
                 walk_block(s[2], env, ctx + ("then",), fi, ret); walk_block(s[3], env, ctx + ("else",), fi, ret)
             elif k == "while":
                 walk_expr(s, 1, env, ctx + ("while-cond",), fi, ret); walk_block(s[2], env, ctx + ("loop",), fi, ret)
+            elif k == "for":
+                walk_expr(s, 3, env, ctx + ("for-lo",), fi, ret); walk_expr(s, 4, env, ctx + ("for-hi",), fi, ret)
+                e2 = dict(env); e2[s[1]] = s[2]
+                walk_block(s[5], e2, ctx + ("for-body",), fi, ret)
+            elif k == "match":
+                walk_expr(s, 1, env, ctx + ("match-subject",), fi, ret)
+                for j in range(len(s[3])): walk_block(s[3][j][1], env, ctx + ("match-arm",), fi, ret)
+                if s[4] is not None: walk_block(s[4], env, ctx + ("match-default",), fi, ret)
             elif k == "return" and s[1] is not None: walk_expr(s, 1, env, ctx + ("return",), fi, ret)
             elif k == "print":
                 for j in range(len(s[1])): walk_expr(s[1], j, env, ctx + ("print-arg",), fi, ret)
@@ -99,6 +107,8 @@ def mutable(prog):
         elif k == "cassign": s[3] = me(s[3])
         elif k == "if": s[1] = me(s[1]); s[2] = mb(s[2]); s[3] = mb(s[3])
         elif k == "while": s[1] = me(s[1]); s[2] = mb(s[2])
+        elif k == "for": s[3] = me(s[3]); s[4] = me(s[4]); s[5] = mb(s[5])
+        elif k == "match": s[1] = me(s[1]); s[3] = [[v, mb(b)] for v, b in s[3]]; s[4] = mb(s[4]) if s[4] is not None else None
         elif k == "return" and s[1] is not None: s[1] = me(s[1])
         elif k == "print": s[1] = [me(a) for a in s[1]]
         elif k == "expr": s[1] = me(s[1])
@@ -160,6 +170,27 @@ def inject(prog, cls, rng):
                 x = var_of_type(s.env, lambda u: u in core.ITYS, rng)
                 if x is not None:
                     e[2] = ["var", x]; return m, s.ctx + ("not",)
+    if cls == "nonbool-logical-literal":
+        # an untyped numeric literal / constant expression as operand of a logical operator
+        lit = rng.choice([["lit", "i32", 1], ["lit", "i32", 0], ["bin", "+", ["lit", "i32", 2], ["lit", "i32", 5]]])
+        for s in esites:
+            e = s.get()
+            if e[0] == "bin" and e[1] in ("&&", "||"):
+                e[2 if rng.random() < 0.5 else 3] = lit; return m, s.ctx + ("logical",)
+            if e[0] == "un" and e[1] == "!":
+                e[2] = lit; return m, s.ctx + ("not",)
+    if cls == "nonbool-condition-literal":
+        for s in ssites:
+            st = s.get()
+            if st[0] in ("if", "while"):
+                st[1] = ["lit", "i32", 1]; return m, s.ctx + (st[0] + "-cond",)
+    if cls == "arith-bool-operand":
+        for s in esites:
+            e = s.get()
+            if e[0] == "bin" and e[1] in core.ARITH:
+                x = var_of_type(s.env, lambda u: u == "bool", rng)
+                e[2 if rng.random() < 0.5 else 3] = ["var", x] if (x is not None and rng.random() < 0.6) else ["bool", True]
+                return m, s.ctx + ("bin",)
     if cls in ("arity-missing", "arity-extra", "arg-type"):
         for s in esites:
             e = s.get()
@@ -217,7 +248,9 @@ def inject(prog, cls, rng):
 
 CLASSES = ["mixed-operands", "implicit-narrowing", "nonbool-condition", "nonbool-logical", "arity-missing", "arity-extra",
            "arg-type", "undefined-name", "redeclared", "wrong-return-type", "missing-return-value", "return-value-in-void",
-           "call-non-function"]
+           "call-non-function", "nonbool-logical-literal", "nonbool-condition-literal"]
+# "arith-bool-operand" (`10 - true`, untyped literal with a bool/str operand) is accepted by the unchanged compiler, but arithmetic on
+# non-numeric operands is not in the property's catalogue: the class is implemented above and deliberately NOT enabled.
 
 # rendering of the extra node kind
 _r_expr0 = core.r_expr
